@@ -44,7 +44,7 @@ def run(tier, rep):
     for b in range(batches):
         mm = os.path.join(c.OUT, "cases", "C07.mm.%d.ndjson" % b)
         args = ["--seed", c.seed() * 1000 + b, "--n", per, "--cases", cases, "--mismatches", mm,
-                "--trunc-seeds", 40 if b == 0 else 0]
+                "--trunc-seeds", 40 if b == 0 else 0, "--scale", 1 if b == 1 else 0]
         running.append((b, args, mm, subprocess.Popen([c.HARNESS, "hostile"] + [str(a) for a in args],
                                                      stdout=subprocess.PIPE, stderr=subprocess.PIPE, text=True)))
     total = distinct = 0
